@@ -74,3 +74,140 @@ def lemma_instance(prop, which, func):
     spec = LEMMAS[which]
     return Instance(prop, func, 'lean-lemma-%s' % which, None, None, None, mode='lemma', lemma=spec, crosscheck=False, frame=False,
                     tags=('lemma',))
+
+
+# ----------------------------------------------------------------------------- Watson spline inverse: the contract that the
+# proof instances of C08 / C09 assume (hypergeometric_ratio_inverse in [0, max_concentration], inverse of the 1F1 ratio),
+# checked here as a bounded stand-in -- for several trainers with different options in one process (history)
+def watson_spline_bounded_instance(prop):
+    from pb_bss.distribution import complex_watson as m
+
+    def make(B):
+        return {'D': B.choose('D', [2, 3, 4, 6]), 'order': B.choose('order', list(range(6))), 'seed': B.choose('seed', list(range(1000))),
+                'd': B.given('d', np.zeros(1))}
+
+    def call(inp):
+        from scipy.special import hyp1f1
+        D = inp['D']
+        rng = np.random.RandomState(inp['seed'])
+        mcs = list(itertools.permutations([500, 40.0, 150.0]))[inp['order']]
+        res = []
+        for mc in mcs:
+            tr = m.ComplexWatsonTrainer(D, max_concentration=mc) if mc != 500 else m.ComplexWatsonTrainer(D)
+            ev = np.concatenate([rng.uniform(1.0 / D, 1.0, size=12), [1.0 / D, 1.0, 0.0]])
+            kap = np.asarray(tr.hypergeometric_ratio_inverse(ev), dtype=float)
+            # independent evaluation of the ratio lambda(kappa) = 1F1(2; D+1; kappa) / (D 1F1(1; D; kappa))
+            with np.errstate(all='ignore'):
+                back = hyp1f1(2, D + 1, kap) / (D * hyp1f1(1, D, kap))
+                top = hyp1f1(2, D + 1, float(mc)) / (D * hyp1f1(1, D, float(mc)))
+            # the whole trainer on peaky data: two nearly identical directions
+            z = rng.normal(size=(8, D)) * 1e-3 + 1j * rng.normal(size=(8, D)) * 1e-3 + np.eye(D)[0]
+            fit = tr.fit(z)
+            res.append({'mc': float(mc), 'ev': ev, 'kappa': kap, 'back': back, 'top': float(top), 'fit_kappa': float(np.asarray(fit.concentration))})
+        return {'res': res}
+
+    def ensures(sp, inp, out):
+        D = inp['D']
+        for r in out['res']:
+            mc, ev, kap, back = r['mc'], r['ev'], r['kappa'], r['back']
+            yield 'inverse-in-[0,max_concentration]', bool(np.all(np.isfinite(kap)) and np.all(kap >= 0.0) and np.all(kap <= mc * (1 + 1e-12)))
+            inside = (ev > 1.0 / D + 1e-3) & (ev < r['top'] - 1e-6)
+            yield 'inverse-inverts-the-hypergeometric-ratio', bool(np.all(np.abs(back[inside] - ev[inside]) <= 1e-4))
+            sat = ev >= r['top'] + 1e-9
+            yield 'saturates-at-max_concentration', bool(np.all(np.abs(kap[sat] - mc) <= 1e-9 * mc))
+            yield 'uniform-scatter-gives-zero-concentration', bool(np.all(kap[ev <= 1.0 / D] <= 1e-2))
+            yield 'fitted-concentration-in-[0,max_concentration]', bool(0.0 <= r['fit_kappa'] <= mc * (1 + 1e-12))
+
+    return Instance(prop, 'pb_bss.distribution.complex_watson:ComplexWatsonTrainer.hypergeometric_ratio_inverse',
+                    'bounded-spline-inverse-contract-across-trainers', make, call, ensures, mode='bounded', bounded_n=24, frame=False)
+
+
+# ----------------------------------------------------------------------------- complex Bingham trainer (bounded stand-in; the
+# bounded least-squares solve is outside the symbolic engine)
+def _bingham_log_norm(lam):
+    lam = np.asarray(lam, float)
+    D = len(lam)
+    s = 0.0
+    for j in range(D):
+        p = 1.0
+        for k in range(D):
+            if k != j:
+                p *= (lam[j] - lam[k])
+        s += np.exp(lam[j]) / p
+    return np.log(2 * np.pi ** D * s)
+
+
+def _bingham_grad_log_norm(lam, h=1e-5):
+    g = np.zeros(len(lam))
+    for j in range(len(lam)):
+        a = np.array(lam, float)
+        b = a.copy()
+        a[j] += h
+        b[j] -= h
+        g[j] = (_bingham_log_norm(a) - _bingham_log_norm(b)) / (2 * h)
+    return g
+
+
+def bingham_trainer_bounded_instance(prop):
+    from pb_bss.distribution import complex_bingham as m
+
+    def make(B):
+        return {'D': B.choose('D', [2, 3, 4]), 'mc': B.choose('mc', [np.inf, 20.0, 100.0, 3.0]), 'kind': B.choose('kind', ['flat', 'peaky', 'peaky', 'collinear', 'duplicated', 'exactly-collinear', 'too-few', 'zero']),
+                'sal': B.choose('sal', [False, True]), 'lead': B.choose('lead', [(), (2,)]), 'seed': B.choose('seed', list(range(5000))),
+                'd': B.given('d', np.zeros(1))}
+
+    def call(inp):
+        rng = np.random.RandomState(inp['seed'])
+        D, mc, lead = inp['D'], inp['mc'], tuple(inp['lead'])
+        N = 8 * D
+        z = rng.normal(size=lead + (N, D)) + 1j * rng.normal(size=lead + (N, D))
+        if inp['kind'] == 'peaky':
+            z = z * (rng.uniform(1.5, 4.0) ** np.arange(D)[::-1])
+        elif inp['kind'] == 'collinear':
+            z = 1e-3 * z + np.eye(D)[rng.randint(D)] * np.exp(1j * rng.uniform(0, 6.28, size=lead + (N, 1)))
+        elif inp['kind'] == 'duplicated':
+            z = np.concatenate([np.repeat(z[..., :1, :], N - 1, axis=-2), z[..., -1:, :]], axis=-2)
+        elif inp['kind'] == 'exactly-collinear':
+            z = z[..., :1, :] * np.exp(1j * rng.uniform(0, 6.28, size=lead + (N, 1)))
+        elif inp['kind'] == 'too-few':
+            z = z[..., :D - 1, :]
+        elif inp['kind'] == 'zero':
+            z = np.zeros_like(z)
+        if inp['kind'] in ('duplicated', 'exactly-collinear', 'too-few', 'zero') and not np.isfinite(mc):
+            mc = 50.0          # rank deficient scatter: the ML concentration is infinite, a finite limit is required
+        z = z * 10.0 ** rng.uniform(-3, 3, size=z.shape[:-1] + (1,))        # per-frame gains: the trainer normalises
+        sal = rng.uniform(0.2, 2.0, size=z.shape[:-1]) if inp['sal'] else None
+        tr = m.ComplexBinghamTrainer(max_concentration=mc)
+        model = tr.fit(z, saliency=sal)
+        return {'lam': np.asarray(model.covariance_eigenvalues), 'V': np.asarray(model.covariance_eigenvectors), 'z': z, 'sal': sal, 'mc': mc}
+
+    def ensures(sp, inp, out):
+        D, mc, lead = inp['D'], out['mc'], tuple(inp['lead'])
+        lam, V, z, sal = out['lam'], out['V'], out['z'], out['sal']
+        yield 'shapes', bool(lam.shape == lead + (D,) and V.shape == lead + (D, D))
+        yield 'finite', bool(np.all(np.isfinite(lam)) and np.all(np.isfinite(V)))
+        # duplicate eigenvalues are separated by eignevalue_eps = 1e-8 by design (the closed-form normaliser needs distinct
+        # values; the density is invariant to a common shift): the domain holds up to (D - 1) * 1e-8
+        tol = D * 1e-8
+        yield 'eigenvalues<=0-with-maximum-0', bool(np.all(lam <= tol) and np.all(np.abs(lam.max(-1)) <= tol))
+        if np.isfinite(mc):
+            yield 'eigenvalues>=-max_concentration', bool(np.all(lam >= -mc - tol))
+        zn = z / np.maximum(np.linalg.norm(z, axis=-1, keepdims=True), np.finfo(float).tiny)
+        w_ = np.ones(zn.shape[:-1]) if sal is None else sal
+        for li in np.ndindex(*lead):
+            S_ = np.einsum('n,nd,ne->de', w_[li], zn[li], zn[li].conj()) / w_[li].sum()
+            sw, sv = np.linalg.eigh(S_)
+            yield 'eigenvectors-unitary', bool(np.allclose(V[li].conj().T @ V[li], np.eye(D), atol=1e-8))
+            if np.min(np.diff(sw)) > 1e-6:
+                # columns are the scatter eigenvectors (each up to a phase), in the order of the eigenvalues
+                yield 'eigenvectors-are-the-scatter-eigenvectors', bool(np.allclose(np.abs(np.einsum('dk,dk->k', sv.conj(), V[li])), 1.0, atol=1e-6))
+                yield 'eigenvalue-order-follows-the-scatter-eigenvalues', bool(np.all(np.diff(lam[li]) >= -1e-9))
+            lm = lam[li]
+            unclipped = (not np.isfinite(mc)) or bool(np.all(lm > -mc * 0.999))
+            # (an all-zero recording has no unit-norm frames: its 'scatter' has trace 0 and defines no Bingham model)
+            if unclipped and abs(np.trace(S_).real - 1.0) < 1e-9 and np.min(np.abs(np.diff(np.sort(lm)))) > 1e-2 and np.min(lm) > -2e3:
+                g = _bingham_grad_log_norm(lm)
+                yield 'grad-log-normaliser-equals-scatter-eigenvalues', bool(np.max(np.abs(g - sw)) <= 1e-5)
+
+    return Instance(prop, 'pb_bss.distribution.complex_bingham:ComplexBinghamTrainer.fit', 'bounded-bingham-estimator-and-domain', make, call,
+                    ensures, mode='bounded', bounded_n=60, frame=False)
